@@ -356,3 +356,41 @@ def mk_add_bank(name):
 _t13add = tasks
 def tasks(tier):
     return _t13add(tier) + [('init:' + n, mk_add_bank(n)) for n in ADD_BANK]
+
+
+# ---------------------------------------------------------------- C13.h: the group configuration instruction (leverage caps every e-mode entry is later measured against; and who gets which admin role)
+def t_group_configure(world, oid='C13.h'):
+    from specs.handlers import run_handler
+    from specs.C12 import find_accounts
+    eng, f, args, res = run_handler(world, r'marginfi_group::configure::configure$', kernels=[], merge=True, max_paths=20000)
+    ob = Ob(oid, 'marginfi_group configure: Ok => 1 <= initial cap < maintenance cap <= 100 (defaults 15 / 20 when omitted), the stored u32 caps are the exact images of those values, '
+            'and each of the seven admin fields receives the argument of the same name (no role is handed to another role\'s key); group flags and bank count untouched',
+            [f.name], 'handler mode, everything inlined (update_* helpers, basis_to_u32 from the type crate); all Option combinations, state-merged'); ob.paths = len(res)
+    roles = ['admin', 'emode_admin', 'delegate_curve_admin', 'delegate_limit_admin', 'delegate_emissions_admin', 'metadata_admin', 'risk_admin']      # argument order of the instruction
+    U32M = 2**32 - 1
+    def b2u(x):
+        cl = z3.If(x > 100 * W, 100 * W, z3.If(x < 0, 0, x))
+        ratio = (cl * W) / (100 * W)
+        return ((ratio * (U32M * W)) / W) / W
+    for r, okc in ok_paths(res):
+        if ob.witness(eng, r, [okc]) is False: continue
+        accts = {}
+        for root in r['roots']: accts.update(find_accounts(eng, root))
+        g = [c for c, sv in accts.items() if 'MarginfiGroup' in sv.ty]
+        if len(g) != 1: ob.fail(f'group objects {g}'); continue
+        G = accts[g[0]]; cur = lambda n: ev(fget(eng, G, 'MarginfiGroup', n))
+        ob.prove(eng, r, [okc], z3.And([cur(n) == args[i + 1].e for i, n in enumerate(roles)]), 'each admin field == the argument of the same name', role='admin-roles')
+        def optv(a, default):
+            d = zint(a.disc); v = ev(a.payload[1][0]) if 1 in a.payload and 0 in a.payload[1] else z3.IntVal(default)
+            return z3.If(d == 1, v, default)
+        I = optv(args[8], 15 * W); M = optv(args[9], 20 * W)
+        ob.prove(eng, r, [okc], z3.And(I >= W, I < M, M <= 100 * W), 'accepted caps: 1 <= initial < maintenance <= 100', role='cap-order')
+        ob.prove(eng, r, [okc], z3.And(cur('emode_max_init_leverage') == b2u(I), cur('emode_max_maint_leverage') == b2u(M)), 'stored caps are the exact u32 images (scale 0..100) of the accepted values', role='cap-stored')
+        ob.prove(eng, r, [okc], z3.And(cur('group_flags') == fsym(g[0], 'MarginfiGroup', 'group_flags'), cur('banks') == fsym(g[0], 'MarginfiGroup', 'banks')), 'flags and bank count untouched', role='group-frame')
+    ob.need_witness()
+    return [ob]
+
+
+_t_gc = tasks
+def tasks(tier):
+    return _t_gc(tier) + [('group_configure', t_group_configure)]
